@@ -11,6 +11,8 @@ import itertools
 
 import numpy as np
 
+from .. import harness as H
+
 from .. import smooth as S
 from ..oracles import whittaker as W
 
@@ -163,11 +165,11 @@ def shard_accessor(spec, R):
         da = xr.DataArray(cube.astype(dtype), dims=["y", "x", "time"],
                           coords={"time": pd.date_range("2020-01-01", periods=nt, freq="10D"), "y": np.arange(ny), "x": np.arange(nx)},
                           attrs={"nodata": nodata}, name="band")
-        order = orders[it % 6]
+        order = orders[H.pick(it, 1, 6)]
         da = da.transpose(*order)
-        use_p = bool(it % 2)
-        p = float([0.5, rng.uniform(0.05, 0.95), 0.99, rng.uniform(0.05, 0.95), 0.01][it % 5]) if use_p else None
-        mode = it % 3
+        use_p = bool(H.pick(it, 2, 2))
+        p = float([0.5, rng.uniform(0.05, 0.95), 0.99, rng.uniform(0.05, 0.95), 0.01][H.pick(it, 3, 5)]) if use_p else None
+        mode = H.pick(it, 4, 3)
         if mode == 0:
             s = float(10.0 ** rng.uniform(-3, 5))
             res = da.hdc.whit.whits(nodata=nodata, s=s, p=p)
@@ -178,7 +180,7 @@ def shard_accessor(spec, R):
                 sgv[rng.random((ny, nx)) < 0.4] = -np.inf
             sg = xr.DataArray(sgv, dims=["y", "x"], coords={"y": np.arange(ny), "x": np.arange(nx)})
             # the sgrid is matched to pixels by dimension *name*: hand it over in another dim order, or one-dimensional
-            sgk = (it // 3) % 4
+            sgk = H.pick(it, 5, 4)
             if sgk == 1:
                 sg = sg.transpose("x", "y")
                 R.count("accessor_sgrid_transposed")
